@@ -1511,7 +1511,7 @@ class _rrulestr(object):
             rrkwargs["until"] = parser.parse(value,
                                              ignoretz=kwargs.get("ignoretz"),
                                              tzinfos=kwargs.get("tzinfos"))
-        except ValueError:
+        except (ValueError, OverflowError):
             raise ValueError("invalid until date")
 
     def _handle_WKST(self, rrkwargs, name, value, **kwargs):
@@ -1573,6 +1573,12 @@ class _rrulestr(object):
             raise ValueError("missing FREQ")
         return rrule(dtstart=dtstart, cache=cache, **rrkwargs)
 
+    def _parse_date(self, datestr, ignoretz, tzinfos):
+        try:
+            return parser.parse(datestr, ignoretz=ignoretz, tzinfos=tzinfos)
+        except OverflowError:
+            raise ValueError("invalid date: " + datestr)
+
     def _parse_date_value(self, date_value, parms, rule_tzids,
                           ignoretz, tzids, tzinfos):
         global parser
@@ -1615,7 +1621,7 @@ class _rrulestr(object):
                 value_found = True
 
         for datestr in date_value.split(','):
-            date = parser.parse(datestr, ignoretz=ignoretz, tzinfos=tzinfos)
+            date = self._parse_date(datestr, ignoretz, tzinfos)
             if TZID is not None:
                 if date.tzinfo is None:
                     date = date.replace(tzinfo=TZID)
@@ -1722,9 +1728,8 @@ class _rrulestr(object):
                                                      tzinfos=tzinfos))
                 for value in rdatevals:
                     for datestr in value.split(','):
-                        rset.rdate(parser.parse(datestr,
-                                                ignoretz=ignoretz,
-                                                tzinfos=tzinfos))
+                        rset.rdate(self._parse_date(datestr, ignoretz,
+                                                    tzinfos))
                 for value in exrulevals:
                     rset.exrule(self._parse_rfc_rrule(value, dtstart=dtstart,
                                                       ignoretz=ignoretz,
